@@ -78,6 +78,7 @@ func runC14(c *Ctx) {
 	c.r146()
 	c.r147()
 	c.r148()
+	c.r149()
 }
 
 // minifierMethods returns the Minify methods of type Minifier in the format packages.
@@ -1189,4 +1190,63 @@ func (c *Ctx) r148() {
 
 func isErrorType(t types.Type) bool {
 	return t != nil && types.Identical(t, types.Universe.Lookup("error").Type())
+}
+
+// R14.9: the command minifier probes its writer too.
+func (c *Ctx) r149() {
+	const rule = "R14.9"
+	c.R.Rule(rule, "a minifier registered with AddCmd runs an external command and copies its output to the writer; a command that prints nothing — an empty input, a tool that writes elsewhere — leads to no Write at all, and a writer that has failed is not noticed (R14.1 holds for the six built-in minifiers through their final `w.Write(nil)`). cmdMinifier.Minify contains a probe `w.Write(nil)` on its io.Writer parameter whose error is assigned, and the last return statement of the function returns that variable")
+	pk := c.pkg(rule, "")
+	if pk == nil {
+		return
+	}
+	info := pk.TypesInfo
+	fd := c.fn(rule, pk, "cmdMinifier.Minify")
+	if fd == nil {
+		return
+	}
+	w := paramOfType(info, fd, "io.Writer")
+	if w == nil {
+		c.R.Unres(rule, "minify.cmdMinifier.Minify/writer param", c.pos(fd), "no io.Writer parameter")
+		return
+	}
+	var last *ast.ReturnStmt
+	for _, st := range fd.Body.List {
+		if rs, ok := st.(*ast.ReturnStmt); ok {
+			last = rs
+		}
+	}
+	var probed types.Object
+	ast.Inspect(fd.Body, func(z ast.Node) bool {
+		as, ok := z.(*ast.AssignStmt)
+		if !ok || len(as.Rhs) != 1 || len(as.Lhs) != 2 {
+			return true
+		}
+		call, ok := ast.Unparen(as.Rhs[0]).(*ast.CallExpr)
+		if !ok || len(call.Args) != 1 || !isNilExpr(call.Args[0]) {
+			return true
+		}
+		sel, ok := call.Fun.(*ast.SelectorExpr)
+		if !ok || sel.Sel.Name != "Write" {
+			return true
+		}
+		if id, ok := ast.Unparen(sel.X).(*ast.Ident); !ok || info.Uses[id] != w {
+			return true
+		}
+		if eid, ok := as.Lhs[1].(*ast.Ident); ok && eid.Name != "_" {
+			probed = info.Uses[eid]
+			if probed == nil {
+				probed = info.Defs[eid]
+			}
+		}
+		return true
+	})
+	good := false
+	if last != nil && len(last.Results) == 1 && probed != nil {
+		if id, ok := ast.Unparen(last.Results[0]).(*ast.Ident); ok && info.Uses[id] == probed {
+			good = true
+		}
+	}
+	c.R.Check(good, rule, "minify.cmdMinifier.Minify/the writer is probed before success is reported", c.pos(fd), "w.Write(nil) assigned to the error that is returned",
+		"the command minifier reports success without having written anything when the command printed nothing: a failing writer goes unnoticed (`AddCmd(\"a/out\", exec.Command(\"true\"))` with a writer that always fails returns nil)")
 }
